@@ -285,7 +285,7 @@ pub fn cmd_run(env: &Arc<Env>, tier: &str, args: &[String]) -> i32 {
     let thorough = tier == "thorough";
     let verif_seed: u64 = std::env::var("VERIF_SEED").ok().and_then(|s| s.parse().ok()).unwrap_or(crate::runner::DEFAULT_SEED);
     let arg = |n: &str| args.iter().position(|a| a == n).and_then(|i| args.get(i + 1)).and_then(|s| s.parse::<u64>().ok());
-    let total = arg("--runs").unwrap_or(if thorough { 20000 } else { 1600 });
+    let total = arg("--runs").unwrap_or(if thorough { 24000 } else { 2400 });
     let workers = arg("--workers").unwrap_or(16) as usize;
     let wall_cap = std::time::Duration::from_secs(arg("--wall-cap").unwrap_or(if thorough { 2400 } else { 300 }));
     let chunk = 40u64;
